@@ -246,6 +246,9 @@ func exec(kind byte, body []byte) *core.Verdict {
 			lits[i] = farLiteral(o.Val, i+len(c.Ops))
 		default:
 			lits[i] = fmt.Sprint(gamma(o.Val, c.Uniq))
+			if c.Uniq && lits[i] == "0" && (i+len(c.Ops))%2 == 1 {
+				lits[i] = "-0" // an integer-value may carry a sign: "-0" is zero (an enum value; a position has no sign)
+			}
 		}
 	}
 	text := module(c.Ops, lits, c.Uniq)
